@@ -284,9 +284,24 @@ func ledgerFamily(run *core.Run, o ledgerFamilyOpts) {
 	run.Set("lab_walks", walkStats)
 	run.Set("lab_walk_methods_accepted", methods)
 	events := 0
+	released := map[string]int{}
 	for _, r := range runs {
 		events += len(r.Events)
+		for _, ev := range r.Events {
+			if rel, ok := ev["rel"]; ok {
+				js, _ := json.Marshal(rel)
+				var list []struct {
+					Kind string `json:"kind"`
+				}
+				if json.Unmarshal(js, &list) == nil {
+					for _, x := range list {
+						released[x.Kind]++
+					}
+				}
+			}
+		}
 	}
+	run.Set("locked_entries_released_in_the_validated_traces_by_kind", released)
 	verdicts, states, err := validateLedgerRuns(runs, o.invariants)
 	if err != nil {
 		core.Fatal("%v", err)
